@@ -84,6 +84,9 @@ type Interp struct {
 	deferCtx  []*frame
 	observed  []obsRec
 	initLimit int
+	globalOf  map[*Object]*ssa.Global
+	w         *worker
+	pathNo    int
 }
 
 type obsRec struct {
@@ -159,10 +162,10 @@ func (in *Interp) decide(c *Term) bool {
 		return d
 	}
 	r := in.run
-	tF := r.feasible(in.pc, c)
+	tF := r.feasible(in, c)
 	d := true
 	if tF {
-		fF := r.feasible(in.pc, Not(c))
+		fF := r.feasible(in, Not(c))
 		if fF {
 			alt := make([]bool, len(in.prefix)+1)
 			copy(alt, in.prefix)
@@ -249,18 +252,32 @@ func (in *Interp) ensureInit(pkg *ssa.Package) {
 		return
 	}
 	in.pkgInit[pkg] = true
+	in.run.mu.Lock()
+	snap := in.run.initSnap[pkg]
+	in.run.mu.Unlock()
+	if snap != nil {
+		in.restorePackage(pkg, snap)
+		return
+	}
 	// allocate all globals first
 	for _, m := range pkg.Members {
 		if g, ok := m.(*ssa.Global); ok {
 			if _, have := in.globals[g]; !have {
 				et := g.Type().(*types.Pointer).Elem()
-				in.globals[g] = in.newObject(et, in.zero(et), g.String())
+				o := in.newObject(et, in.zero(et), g.String())
+				in.globals[g] = o
+				in.globalOf[o] = g
 			}
 		}
 	}
 	if in.run.cfg.NoInit[pkg.Pkg.Path()] {
 		return
 	}
+	defer func() {
+		if !in.run.cfg.NoInitCache {
+			in.snapshotPackage(pkg)
+		}
+	}()
 	initFn := pkg.Func("init")
 	if initFn == nil || initFn.Blocks == nil {
 		return
